@@ -507,6 +507,7 @@ std::atomic<uint64_t> g_max_seen_epoch{0};
 thread_local uint64_t tl_gap_epoch = 0;          // global epoch observed when the enter gap was reached
 thread_local bool tl_stale_publication = false;  // the epoch published by the last enter was stale by >= 2
 thread_local uint64_t tl_step_upper = 0;  // upper epoch of the newest list node this lookup stood on (0: no traversal step)
+thread_local uint64_t tl_entered_epoch = 0;  // value published by this thread's last EnterEpoch
 thread_local bool tl_long_lookup = false;
 thread_local bool tl_in_gpe = false;
 thread_local int tl_worker = -1;
@@ -531,14 +532,25 @@ PointCb(int id, const void *obj)
   if (g_em == nullptr) return;
   switch (id) {
     case kEpochEnterGap: tl_gap_epoch = g_em->GetCurrentEpoch(); break;
-    case kEpochEntered:
-      // the value just published was read before the gap point; if the global epoch has advanced by two or
-      // more since then, two complete forwards can have missed the pin
-      if (tl_gap_epoch != 0 && g_em->GetCurrentEpoch() >= tl_gap_epoch + 2) {
+    case kEpochEntered: {
+      // obj is the Epoch whose entered_ was just published: if the global epoch is already two or more ahead of the
+      // published value, two complete forwards can have missed the pin (the value was read, then the thread was
+      // stalled - by an injected delay or by the scheduler - before it published it)
+      const auto e = static_cast<const ::dbgroup::thread::component::Epoch *>(obj)->GetProtectedEpoch();
+      tl_entered_epoch = e;
+      if (e != std::numeric_limits<size_t>::max() && g_em->GetCurrentEpoch() >= e + 2) {
         tl_stale_publication = true;
         g_stale_publications.fetch_add(1, kRlx);
       }
       break;
+    }
+    case kEpochLookupBegin: {
+      // obj is the head of the node list as read by this lookup; if it is newer than the guard's own node the
+      // traversal is going to stand on it without protecting it
+      const auto upper = reinterpret_cast<const uint64_t *>(obj)[1];
+      if (upper > (tl_entered_epoch & ~static_cast<uint64_t>(EpochManager::kCapacity - 1)) && upper > tl_step_upper) tl_step_upper = upper;
+      break;
+    }
     case kEpochLookupStep: {
       // obj is the list node the lookup is standing on (valid now: the callback runs before any injected delay);
       // ProtectedNode = {next, upper_epoch_, lists}: remember the newest node's upper epoch
